@@ -201,7 +201,7 @@ class MsgnoHooks(TableHooks):
         up = g1v(args[1])
         up = up[1] if isinstance(up, tuple) and up[0] == '&' else None
         outs = [Outcome(ret=fs(0), sets={'$in': fs('noscan')})]
-        for u in (0, 1, 3, 4, 2 ** 31, 2 ** 31 + 5):
+        for u in (0, 1, 3, 4, 2 ** 31, 2 ** 31 + 5, 2 ** 32, 2 ** 32 + 1, 2 ** 32 + 3, 2 ** 33 + 2):
             outs.append(Outcome(ret=fs(1), sets={up: fs(u), '$in': fs(u)}))
         return outs
 
@@ -329,7 +329,7 @@ def run(ctx):
                 bad.append((inp, ret, 'expected %d' % (inp - 1)))
         elif ret != -1:
             bad.append((inp, ret, 'expected -1 (deleted=%s)' % deleted))
-    r2.check(len(seen_in) >= 6 and not bad, 'msgno-table', u + ':msgno', 'deviations (input, result): %s' % bad[:5])
+    r2.check(len(seen_in) >= 10 and not bad, 'msgno-table', u + ':msgno', 'deviations (input, result): %s' % bad[:5])
     for inst, v in sorted(MH.sites.items()):
         r2.check(v[0], 'msgno:' + inst, v[1], v[2], v[3])
     for caller in ('pop3_dele', 'pop3_list', 'pop3_uidl', 'pop3_top'):
